@@ -250,6 +250,80 @@ theorem split_glue_rename (ρ : Nat → Nat) (hinj : ∀ a b, ρ a = ρ b → a 
     Seg.evalSeg (seg.map (Rename.renTr ρ)) (t.map (Rename.renRow ρ)) = (Seg.evalSeg seg t).map (Rename.renRow ρ) :=
   Rename.evalSeg_ren ρ hinj seg t
 
+
+/-! ### T5 the set-operation rewrite (sql/pq/preprocess.rs `intersect` / `except`)
+
+A join that equates every column of both sides, followed by a projection of the left side, is rewritten to INTERSECT (an
+anti-join to EXCEPT).  `==` is SQL equality - it never holds when a side is NULL - and a join pairs EVERY equal row, while the set
+operations treat NULLs as identical and count rows differently.  What is true, and what is not: -/
+section SetOp
+open Model.Rel
+
+/-- `a.c1 == b.c1 && a.c2 == b.c2 && ..` on two rows: all columns equal and none NULL -/
+def rowEqSql : Row → Row → Bool
+  | [], [] => true
+  | x :: xs, y :: ys => (x != .null) && (x == y) && rowEqSql xs ys
+  | _, _ => false
+
+/-- `from a | join b (all columns equal) | select {a.*}` as a bag: one copy of the left row per matching right row -/
+def joinAllLeft (t b : List Row) : List Row := t.flatMap fun r => (b.filter (rowEqSql r)).map fun _ => r
+
+/-- rows of `t` that also occur in `b`, NULLs compared as identical (what INTERSECT keeps, up to multiplicity) -/
+def intersectRows (t b : List Row) : List Row := t.filter (b.contains ·)
+
+theorem rowEqSql_eq {r s : Row} (h : rowEqSql r s = true) : r = s ∧ ∀ v ∈ r, v ≠ .null := by
+  induction r generalizing s with
+  | nil => cases s <;> simp_all [rowEqSql]
+  | cons x xs ih =>
+    cases s with
+    | nil => simp [rowEqSql] at h
+    | cons y ys =>
+      simp only [rowEqSql, Bool.and_eq_true, bne_iff_ne, ne_eq, beq_iff_eq] at h
+      obtain ⟨⟨hx, hxy⟩, hr⟩ := h
+      obtain ⟨e, hn⟩ := ih hr
+      refine ⟨by rw [hxy, e], ?_⟩
+      intro v hv
+      rcases List.mem_cons.mp hv with rfl | hv
+      · exact hx
+      · exact hn v hv
+
+theorem rowEqSql_refl {r : Row} (h : ∀ v ∈ r, v ≠ .null) : rowEqSql r r = true := by
+  induction r with
+  | nil => rfl
+  | cons x xs ih =>
+    simp only [rowEqSql, Bool.and_eq_true, bne_iff_ne, ne_eq, beq_iff_eq]
+    exact ⟨⟨h x (by simp), trivial⟩, ih fun v hv => h v (by simp [hv])⟩
+
+/-- for rows WITHOUT NULLs the join keeps exactly the rows INTERSECT keeps (as sets): the rewrite is sound there -/
+theorem join_all_mem_iff (t b : List Row) (r : Row) (hnn : ∀ v ∈ r, v ≠ .null) :
+    r ∈ joinAllLeft t b ↔ r ∈ intersectRows t b := by
+  simp only [joinAllLeft, intersectRows, List.mem_flatMap, List.mem_map, List.mem_filter, List.contains_iff_mem]
+  constructor
+  · rintro ⟨r', hr', s, ⟨hs, he⟩, rfl⟩
+    obtain ⟨e, _⟩ := rowEqSql_eq he
+    exact ⟨hr', e ▸ hs⟩
+  · rintro ⟨hr, hb⟩
+    exact ⟨r, hr, r, ⟨hb, rowEqSql_refl hnn⟩, rfl⟩
+
+/-- a row the join keeps never contains NULL -/
+theorem join_all_no_null (t b : List Row) (r : Row) (h : r ∈ joinAllLeft t b) : ∀ v ∈ r, v ≠ .null := by
+  simp only [joinAllLeft, List.mem_flatMap, List.mem_map, List.mem_filter] at h
+  obtain ⟨r', _, s, ⟨_, he⟩, rfl⟩ := h
+  exact (rowEqSql_eq he).2
+
+/-- ... but with a NULL the two differ (known finding setop-rewrite-null-equality: row (NULL, 2) in both tables) -/
+theorem setop_rewrite_null_counterexample :
+    joinAllLeft [[.int 1, .int 1], [.null, .int 2]] [[.int 1, .int 1], [.null, .int 2]] = [[.int 1, .int 1]] ∧
+    intersectRows [[.int 1, .int 1], [.null, .int 2]] [[.int 1, .int 1], [.null, .int 2]] = [[.int 1, .int 1], [.null, .int 2]] := by
+  decide
+
+/-- ... and so do the multiplicities: two equal rows on each side give four joined rows, INTERSECT ALL gives two -/
+theorem setop_rewrite_multiplicity_counterexample :
+    (joinAllLeft [[.int 1], [.int 1]] [[.int 1], [.int 1]]).length = 4 ∧ (intersectRows [[.int 1], [.int 1]] [[.int 1], [.int 1]]).length = 2 := by
+  decide
+
+end SetOp
+
 /-! ### T4 documented edge cases, on the reference semantics -/
 open Model.Rel
 
